@@ -915,7 +915,7 @@ func doSelftest(prop, tier string, seed uint64, runs int) {
 func simTimeNote(prop string) string {
 	base := "the library has no clocks or timers; simulated time is reported as logical steps (I/O operations, scheduler steps, enumerated fault points)"
 	if strings.HasPrefix(overlayProps[prop], "work") {
-		base += "; for this check the duration of library work is simulated as well: a deterministic counter of function entries and loop iterations inserted by a build overlay (totals under reach_probes, 'simulated time ...')"
+		base += "; for this check the duration of library work is simulated as well: a deterministic counter of function entries and loop iterations inserted by a build overlay (totals under reach_probes, 'measured: simulated time ...')"
 	}
 	return base
 }
